@@ -14,7 +14,7 @@ func init() {
 	register(&propDef{
 		ID: "C14",
 		Meta: propMeta{
-			Explanation: "Decides the structural part of request isolation: (R14a) no package-level variable of the module is written from code reachable from a concurrent entry point (every route handler, every HTTP middleware closure, the worker's RPC handler and health loop, the server's health loop, the worker-token monitor) unless the write holds a mutex, runs inside a sync.Once.Do closure, or is in the reasoned table (initialisation before the goroutine that shares the variable exists) — so no signer or helper can keep request state in a package variable; (R14b) lock discipline for the frozen table of shared objects: every access to Cache.keys, signinit.ts, WorkerToken.procs, Closed.err, the health counters and the PKCS#11 provider map holds the mutex that guards it (constructors of a not-yet-shared object excepted); (R14c) the per-request objects are fresh allocations: audit.New, signinit.Init's SignOpts and Signer.FlagsFromQuery return newly allocated values that do not alias package state; (R14d) shutdown waits: Daemon.Close runs httpServer.Shutdown before Server.Close inside the errgroup whose Wait it returns, and Server.Close signals the health loop before closing tokens; (R14e) an object handed back to a sync.Pool is not used again by the function that returned it (zero instances today; positive control in testdata/ctl/pool); (R14f) for each of the module's go statements, the spawning function does not use a mutable object it handed to the goroutine (captured variable or argument of pointer, map, slice or interface type without its own synchronisation) before a join (receive on a channel the goroutine signals, WaitGroup/errgroup Wait); R14b distinguishes shared (RLock) from exclusive holds, a write needs the exclusive one. R14c also covers signinit.InitKey (the certificate bundle Init writes the per-request timestamper into) and follows module constructors recursively; R14d also requires that Server.Close has no caller besides Daemon.Close's drain step and constructor clean-up paths that hand out no server; R14e also requires that memory put into a pool is not returned uncopied elsewhere and that a method pooling an object held in its receiver clears the field. (R14g) no closure with the signature of an HTTP handler captures a zerolog.Context from an enclosing scope: the per-request log context is derived inside the handler. (R14h) no function returns (*bytes.Buffer).Bytes() of a buffer that is a field of an object reached from a parameter or a package variable: scratch buffers of long-lived objects are not handed out.",
+			Explanation: "Decides the structural part of request isolation: (R14a) no package-level variable of the module is written from code reachable from a concurrent entry point (every route handler, every HTTP middleware closure, the worker's RPC handler and health loop, the server's health loop, the worker-token monitor) unless the write holds a mutex, runs inside a sync.Once.Do closure, or is in the reasoned table (initialisation before the goroutine that shares the variable exists) — so no signer or helper can keep request state in a package variable; (R14b) lock discipline for the frozen table of shared objects: every access to Cache.keys, signinit.ts, WorkerToken.procs, Closed.err, the health counters and the PKCS#11 provider map holds the mutex that guards it (constructors of a not-yet-shared object excepted); (R14c) the per-request objects are fresh allocations: audit.New, signinit.Init's SignOpts and Signer.FlagsFromQuery return newly allocated values that do not alias package state; (R14d) shutdown waits: Daemon.Close runs httpServer.Shutdown before Server.Close inside the errgroup whose Wait it returns, and Server.Close signals the health loop before closing tokens; (R14e) an object handed back to a sync.Pool is not used again by the function that returned it (zero instances today; positive control in testdata/ctl/pool); (R14f) for each of the module's go statements, the spawning function does not use a mutable object it handed to the goroutine (captured variable or argument of pointer, map, slice or interface type without its own synchronisation) before a join (receive on a channel the goroutine signals, WaitGroup/errgroup Wait); R14b distinguishes shared (RLock) from exclusive holds, a write needs the exclusive one. R14c also covers signinit.InitKey (the certificate bundle Init writes the per-request timestamper into) and follows module constructors recursively; R14d also requires that Server.Close has no caller besides Daemon.Close's drain step and constructor clean-up paths that hand out no server; R14e also requires that memory put into a pool is not returned uncopied elsewhere and that a method pooling an object held in its receiver clears the field. (R14g) no closure with the signature of an HTTP handler captures a zerolog.Context from an enclosing scope: the per-request log context is derived inside the handler. (R14k) no implementation of token.Token.GetKey stores its context parameter or a child of it into a struct field: the key object it returns is kept by the key cache and must not be tied to the request that fetched it. (R14j) Info.AppendTo opens the audit file with O_APPEND and writes each record, newline included, with exactly one Write call outside any loop (C06 R06e): records of concurrent requests cannot interleave. (R14i) no function reachable from a concurrent entry point calls pflag.Value.Set, FlagSet.Set/Parse/AddFlag or another mutating method of the option definitions, which are one object for all requests. (R14h) no function returns (*bytes.Buffer).Bytes() of a buffer that is a field of an object reached from a parameter or a package variable: scratch buffers of long-lived objects are not handed out.",
 			NotDecided:  "race freedom of heap objects in general (no points-to / may-happen-in-parallel analysis is available: x/tools v0.29.0 has no go/pointer), deadlock freedom, response mix-ups inside net/http. The atomic/plain mix in internal/closeonce is only noted: its sole lock-free reader cannot overlap the writer (WorkerToken.Close waits for spawners first), so arming it would be a false alarm.",
 			Assumptions: []string{"prometheus collectors, zerolog and rate.Limiter are internally synchronised", "sync.Once.Do runs its function once with a happens-before edge to every return of Do"},
 		},
@@ -158,6 +158,48 @@ func runC14(c *Ctx) {
 			}
 		}
 	}
+	// ---- R14k: cached keys hold no request context
+	c.Rule("R14k", "no token's GetKey stores the context of the fetching call into the key object it returns (the cache serves that object to later requests)", 5)
+	for _, f := range keysHoldNoRequestContext(p) {
+		c.Check(f.OK, "R14k", f.Key, f.Pos, "", f.Detail)
+	}
+	// ---- R14j: concurrent appenders of the audit file (C06 R06e shared)
+	c.Rule("R14j", "the audit file is opened O_APPEND and each record goes out in one Write call, so records of concurrent requests do not interleave (shared with C06 R06e)", 3)
+	c06Append(c, "R14j", "R14j")
+	// ---- R14i: the option definitions are shared by every request and stay read-only there
+	c.Rule("R14i", "no code reachable from a concurrent entry point calls a mutating method of the shared option definitions (pflag.Value.Set, FlagSet.Set / Parse)", 1)
+	nFlagFns, nMut := 0, 0
+	for _, fn := range fns {
+		uses := false
+		for _, b := range fn.Blocks {
+			for _, in := range b.Instrs {
+				ci, ok := in.(ssa.CallInstruction)
+				if !ok {
+					continue
+				}
+				name := p.calleeName(ci.Common())
+				if !strings.Contains(name, "github.com/spf13/pflag") {
+					continue
+				}
+				uses = true
+				mut := false
+				for _, suffix := range []string{"pflag.Value).Set", "pflag.FlagSet).Set", "pflag.FlagSet).Parse", "pflag.FlagSet).ParseAll", "pflag.FlagSet).SetAnnotation", "pflag.FlagSet).MarkHidden", "pflag.FlagSet).MarkDeprecated", "pflag.FlagSet).AddFlag", "pflag.FlagSet).AddFlagSet"} {
+					if strings.HasSuffix(name, suffix) {
+						mut = true
+					}
+				}
+				if mut {
+					nMut++
+					c.Fail("R14i", fmt.Sprintf("%s calls %s#%d", p.FName(fn), name[strings.LastIndex(name, "/")+1:], nMut), p.Pos(in.Pos()), "a mutating method of a flag definition is called from code that runs concurrently for different requests: the definitions (Signer.flags, the common set) are one object for all requests, so between Set and the read-back another request's value is seen and a request is signed with another request's option")
+				}
+			}
+		}
+		if uses {
+			nFlagFns++
+			c.Analysed(p.FName(fn))
+		}
+	}
+	c.Check(nFlagFns >= 1, "R14i", "request-path functions that touch the option definitions", "-", fmt.Sprintf("%d functions examined, %d mutating calls", nFlagFns, nMut), "no request-path function touches pflag at all (FlagsFromQuery's VisitAll did): the rule went vacuous")
 	c.Check(nW >= 4, "R14a", "request-path global writers", "-", fmt.Sprintf("%d writes examined", nW), fmt.Sprintf("only %d writes of package-level variables found on request paths (4 confirmed by reading: health counters x2, lazily built hash table, timestamper)", nW))
 
 	// ---- R14b
@@ -326,8 +368,13 @@ func runC14(c *Ctx) {
 		if body != nil {
 			sd := p.callsIn(body, "(*net/http.Server).Shutdown")
 			cl := p.callsIn(body, "(*server.Server).Close")
-			if len(sd) == 1 && len(cl) == 1 {
-				okOrder = !avoidable(body, sd[0], cl[0]) && !reachableAfter(body, cl[0], sd[0], nil, nil)
+			if len(sd) == 1 && len(cl) >= 1 {
+				okOrder = true
+				for _, c1 := range cl {
+					if avoidable(body, sd[0], c1) || reachableAfter(body, c1, sd[0], nil, nil) {
+						okOrder = false
+					}
+				}
 			}
 		}
 		c.Check(body != nil && waits && okOrder, "R14d", "(*server/daemon.Daemon).Close drains before closing tokens", p.Pos(fn.Pos()), "Shutdown precedes Server.Close inside the errgroup; Close returns eg.Wait()", fmt.Sprintf("shutdown does not wait for in-flight requests before closing tokens (in errgroup:%v waits:%v shutdown-before-close:%v)", body != nil, waits, okOrder))
